@@ -116,8 +116,14 @@ Record m13 := mkM13 {
   m13_bad : bool }.
 Definition pairZ_eqb (x y : Z * Z) : bool := (fst x =? fst y) && (snd x =? snd y).
 Definition mem_pair (x : Z * Z) (l : list (Z * Z)) : bool := existsb (pairZ_eqb x) l.
-Definition sender_of (c m : Z) (l : list csend) : option tid :=
-  match find (fun s => (cs_c s =? c) && (cs_m s =? m)) l with Some s => Some (cs_tid s) | None => None end.
+(** the sends that began before the send of [(c, m)] (the list is newest first), with its sender *)
+Fixpoint sends_before (c m : Z) (l : list csend) : option (tid * list csend) :=
+  match l with
+  | [] => None
+  | s :: r => if (cs_c s =? c) && (cs_m s =? m) then Some (cs_tid s, r) else sends_before c m r
+  end.
+Definition mem_acc (t : tid) (x : Z * Z) (l : list (tid * (Z * Z))) : bool :=
+  existsb (fun a => Nat.eqb (fst a) t && pairZ_eqb (snd a) x) l.
 Definition m13_step (m : m13) (te : tid * wevent) : m13 :=
   let '(t, e) := te in
   let b' := mb_step (m13_b m) te in
@@ -152,12 +158,12 @@ Definition m13_step (m : m13) (te : tid * wevent) : m13 :=
       let dup := mem_pair (c, x) (m13_fwd m) in
       let afterclose := memZ c (m13_cdone m) in
       let bad :=
-        match sender_of c x (m13_sends m) with
+        match sends_before c x (m13_sends m) with
         | None => true                                   (* never sent *)
-        | Some s =>
+        | Some (s, earlier) =>
             (* every earlier accepted message of the same sender on this channel has been forwarded *)
-            negb (forallb (fun a => negb (Nat.eqb (fst a) s) || negb (fst (snd a) =? c) ||
-                                    (snd (snd a) =? x) || mem_pair (snd a) (m13_fwd m)) (m13_acc m))
+            negb (forallb (fun e => negb (Nat.eqb (cs_tid e) s) || negb (cs_c e =? c) ||
+                                    negb (mem_acc s (c, cs_m e) (m13_acc m)) || mem_pair (c, cs_m e) (m13_fwd m)) earlier)
         end in
       mkM13 b' (m13_sends m) (m13_acc m) ((c, x) :: m13_fwd m) (m13_cbegun m) (m13_cdone m) (m13_late m)
             (m13_bad m || dup || afterclose || bad)
